@@ -53,16 +53,16 @@ class VBig(V):
 
 
 class VStruct(V):
-    __slots__ = ("name", "fields")
-    def __init__(self, name, fields):
-        self.name, self.fields = name, list(fields)
+    __slots__ = ("name", "fields", "origin")
+    def __init__(self, name, fields, origin=None):
+        self.name, self.fields, self.origin = name, list(fields), origin
     def __repr__(self): return "%s%r" % (self.name, self.fields)
 
 
 class VEnum(V):
-    __slots__ = ("ty", "variant", "fields")
-    def __init__(self, ty, variant, fields=()):
-        self.ty, self.variant, self.fields = ty, variant, list(fields)
+    __slots__ = ("ty", "variant", "fields", "origin")
+    def __init__(self, ty, variant, fields=(), origin=None):
+        self.ty, self.variant, self.fields, self.origin = ty, variant, list(fields), origin
     def __repr__(self): return "%s::%s%r" % (self.ty, self.variant, self.fields)
 
 
@@ -95,6 +95,16 @@ class VDigits(V):
     def __init__(self, mag): self.mag = mag
 
 
+class VLazy(V):
+    """lazily initialised symbolic object of Rust type `ty` (arbitrary value of that type): fields, variants and
+    scalar leaves are created on first access and named after their access path, so that every re-execution
+    of a path sees the same symbols"""
+    __slots__ = ("path", "ty", "fields", "version")
+    def __init__(self, path, ty):
+        self.path, self.ty, self.fields, self.version = path, ty, {}, 0
+    def __repr__(self): return "Lazy(%s: %s)" % (self.path, self.ty)
+
+
 class VFn(V):
     __slots__ = ("name",)
     def __init__(self, name): self.name = name
@@ -113,11 +123,16 @@ class Cell:
 
 def clone(v):
     if isinstance(v, VStruct):
-        return VStruct(v.name, [clone(x) for x in v.fields])
+        return VStruct(v.name, [clone(x) for x in v.fields], v.origin)
     if isinstance(v, VEnum):
-        return VEnum(v.ty, v.variant, [clone(x) for x in v.fields])
+        return VEnum(v.ty, v.variant, [clone(x) for x in v.fields], v.origin)
     if isinstance(v, VSeq):
         return VSeq([clone(x) for x in v.items], v.kind, v.pos)
+    if isinstance(v, VLazy):
+        c = VLazy(v.path, v.ty)
+        c.fields = {k: clone(x) for k, x in v.fields.items()}
+        c.version = v.version
+        return c
     return v
 
 
@@ -171,6 +186,7 @@ class Program:
         self.promoted = {}
         self.impl_info = {}       # def name -> (self_type_lastseg, trait_str or None)
         self.enum_variants = {}   # enum last-seg -> [variant names] (from source)
+        self.struct_fields = {}   # struct last-seg -> [field names] (declaration order = MIR field index)
         self._parse_promoted(mir_text)
         self.external = {"std", "core", "alloc"}
         try:
@@ -211,6 +227,16 @@ class Program:
                     s = open(os.path.join(root, f), errors="replace").read()
                 except Exception:
                     continue
+                for m in re.finditer(r"\bstruct\s+(\w+)\s*(?:<[^>{]*>)?\s*(?:where[^{]*)?\{", s):
+                    k = match_close(s, m.end() - 1)
+                    body = re.sub(r"//[^\n]*", "", s[m.end():k])
+                    body = re.sub(r"#\[[^\]]*\]", "", body)
+                    names = []
+                    for part in split_top(body):
+                        mm = re.match(r"^\s*(?:pub(?:\([^)]*\))?\s+)?(\w+)\s*:", part)
+                        if mm:
+                            names.append(mm.group(1))
+                    self.struct_fields.setdefault(m.group(1), names)
                 for m in re.finditer(r"\benum\s+(\w+)[^{;]*\{", s):
                     k = match_close(s, m.end() - 1)
                     body = re.sub(r"//[^\n]*", "", s[m.end():k])
@@ -435,6 +461,11 @@ class Engine:
             self.trace = []
             self.depth = 0
             self.fresh_n = 0
+            self._uf_cache = {}
+            self.uf_count = 0
+            self.lazy_ident = {}
+            self.writes = 0
+            self.mk_count = 0
             try:
                 args = make_args()
                 v = self.call(entry, args)
@@ -512,6 +543,133 @@ class Engine:
             self.solver.pop()
         return None
 
+    # ---- lazy initialisation
+    def materialize(self, ty, path):
+        t = ty.strip()
+        m = re.match(r"^&(?:'\w+ )?(mut )?(.*)$", t)
+        if m:
+            return VRef(Cell(self.materialize(m.group(2), path + "*"), path + "*"))
+        ls = last_seg(t)
+        if t in INT_TYPES or (ls in INT_TYPES and "::" not in t.replace("std::", "").replace("core::", "")):
+            x = z3.Int(path)
+            self.pc.append(in_range(x, ls))
+            return VInt(x, ls)
+        if t == "bool":
+            return VBool(z3.Bool(path))
+        if t == "()":
+            return UNIT
+        if t.startswith("(") and t.endswith(")"):
+            return VStruct("()", [self.materialize(x, "%s.%d" % (path, i)) for i, x in enumerate(split_top(t[1:-1])) if x])
+        return VLazy(path, t)
+
+    def enum_variants_of(self, ty):
+        ls = last_seg(ty)
+        if ls in ENUM_STD:
+            return ls, ENUM_STD[ls]
+        if ls in self.P.enum_variants:
+            return ls, self.P.enum_variants[ls]
+        return ls, None
+
+    def force_enum(self, v):
+        """resolve a lazy enum object to a concrete variant on this path (forks)"""
+        if not isinstance(v, VLazy):
+            return v
+        ls, names = self.enum_variants_of(v.ty)
+        if names is None:
+            raise Unsupported("discriminant of lazy non-enum %r" % (v,))
+        d = z3.Int(v.path + "#d")
+        i = self.choose([d == k for k in range(len(names))], "variant of " + v.path)
+        e = VEnum(ls, names[i], [], origin="%s.%s" % (v.path, names[i]))
+        # generic payload types of the std enums are known from the type string
+        k = find_top(v.ty, "<")
+        if ls in ("Option", "Result") and k > 0:
+            gargs = split_top(v.ty[k + 1:match_close(v.ty, k)])
+            if ls == "Option" and names[i] == "Some":
+                e.fields = [self.materialize(gargs[0], e.origin + ".0")]
+            if ls == "Result":
+                e.fields = [self.materialize(gargs[0] if names[i] == "Ok" else gargs[1], e.origin + ".0")]
+        for fi, fv in v.fields.items():
+            while len(e.fields) <= fi:
+                e.fields.append(None)
+            e.fields[fi] = fv
+        return e
+
+    def replace_at(self, c, path, val):
+        """overwrite the value at a place without counting as a program write (lazy resolution)"""
+        if not path:
+            c.v = val
+            return
+        parent = self.nav(c.v, path[:-1])
+        step = path[-1]
+        if isinstance(parent, VRef):
+            parent = self.read_ref(parent)
+        if step[0] == "downcast":
+            return
+        if isinstance(parent, VLazy):
+            parent.fields[step[1]] = val
+        elif isinstance(parent, (VStruct, VEnum)):
+            parent.fields[step[1]] = val
+        elif isinstance(parent, VSeq):
+            parent.items[step[1]] = val
+
+    def force_arg(self, a):
+        """value behind a (possibly nested) reference with lazy enums resolved in place"""
+        r = a
+        while isinstance(r, VRef) and isinstance(self.read_ref(r), VRef):
+            r = self.read_ref(r)
+        if isinstance(r, VRef):
+            v = self.read_ref(r)
+            if isinstance(v, VLazy) and self.enum_variants_of(v.ty)[1] is not None:
+                v = self.force_enum(v)
+                self.replace_at(r.cell, r.path, v)
+            return v
+        if isinstance(r, VLazy) and self.enum_variants_of(r.ty)[1] is not None:
+            return self.force_enum(r)
+        return r
+
+    def typed_result(self, ret_ty, name, uargs):
+        """a value of Rust type ret_ty that is an uninterpreted function of uargs"""
+        key = (name, ret_ty, tuple(str(a) for a in uargs))
+        cache = self.__dict__.setdefault("_uf_cache", {})
+        if key in cache:
+            return clone(cache[key])
+        self.uf_count = getattr(self, "uf_count", 0) + 1
+        tag = "uf%d_%s" % (self.uf_count, re.sub(r"[^A-Za-z0-9_]", "_", name)[-40:])
+        v = self._typed_result(ret_ty.strip(), tag, name, uargs)
+        cache[key] = v
+        return clone(v)
+
+    def _typed_result(self, t, tag, name, uargs):
+        ls = last_seg(t)
+        sane = re.sub(r"[^A-Za-z0-9_]", "_", name)[-50:]
+        if t == "bool":
+            f = z3.Function("ufb_" + sane, *([self.U] * len(uargs) + [z3.BoolSort()]))
+            return VBool(f(*uargs) if uargs else z3.Bool("ufb_" + sane))
+        if t in INT_TYPES:
+            f = z3.Function("ufi_" + sane, *([self.U] * len(uargs) + [z3.IntSort()]))
+            x = f(*uargs) if uargs else z3.Int("ufi_" + sane)
+            self.pc.append(in_range(x, t))
+            return VInt(x, t)
+        if t == "()":
+            return UNIT
+        k = find_top(t, "<")
+        if ls in ("Result", "Option") and k > 0:
+            gargs = split_top(t[k + 1:match_close(t, k)])
+            f = z3.Function("ufb_good_" + sane, *([self.U] * len(uargs) + [z3.BoolSort()]))
+            good = f(*uargs) if uargs else z3.Bool("ufb_good_" + sane)
+            i = self.choose([good, z3.Not(good)], "result of " + name)
+            if ls == "Result":
+                return VEnum("Result", "Ok", [self._typed_result(gargs[0], tag + "_ok", name + "#ok", uargs)]) if i == 0 else \
+                    VEnum("Result", "Err", [VOpaque("err:" + name)])
+            return VEnum("Option", "Some", [self._typed_result(gargs[0], tag + "_some", name + "#some", uargs)]) if i == 0 else VEnum("Option", "None", [])
+        if t.startswith("(") and t.endswith(")"):
+            return VStruct("()", [self._typed_result(x, "%s_%d" % (tag, i), "%s#%d" % (name, i), uargs) for i, x in enumerate(split_top(t[1:-1])) if x])
+        lz = VLazy(tag, t)
+        # identity of the result as a function of the arguments
+        f = z3.Function("ufu_" + sane, *([self.U] * len(uargs) + [self.U]))
+        self.__dict__.setdefault("lazy_ident", {})[tag] = f(*uargs) if uargs else z3.Const("ufu_" + sane, self.U)
+        return lz
+
     # ---- calls
     def call(self, callee, args):
         self.depth += 1
@@ -522,8 +680,26 @@ class Engine:
         finally:
             self.depth -= 1
 
+    def mk_struct(self, name, **fields):
+        """struct value with the given named fields (indices from the source declaration); others lazy"""
+        names = self.P.struct_fields.get(name)
+        if names is None:
+            raise Unsupported("unknown struct " + name)
+        for k in fields:
+            if k not in names:
+                raise Unsupported("struct %s has no field %s" % (name, k))
+        self.mk_count = getattr(self, "mk_count", 0) + 1
+        st = VStruct(name, [fields.get(n) for n in names], origin="mk%d_%s" % (self.mk_count, name))
+        return st
+
     def _call(self, callee, args):
         c = callee.strip()
+        if c.endswith(" as Clone>::clone") and args:
+            a = args[0]
+            while isinstance(a, VRef):
+                a = self.read_ref(a)
+            if isinstance(a, (VLazy, VOpaque, VSeq)):
+                return clone(a)
         for pat, fn in self.extra_intrinsics.items():
             if re.search(pat, c):
                 r = fn(self, c, args)
@@ -551,8 +727,12 @@ class Engine:
         raise Unsupported("no model for callee: %s" % c)
 
     def uf_call(self, name, args):
-        """uninterpreted pure function of the (opaque-term) arguments"""
+        """uninterpreted pure function of the arguments; typed by the callee's MIR signature when it is a crate fn"""
         ts = [self.as_u(a) for a in args]
+        d = self.P.resolve(name)
+        if d is not None and d in self.P.fns:
+            self.trace.append(("uf", name, ts))
+            return self.typed_result(self.P.fns[d].ret, name, ts)
         f = z3.Function("uf_" + re.sub(r"[^A-Za-z0-9_]", "_", name)[-60:], *([self.U] * len(ts) + [self.U]))
         self.trace.append(("uf", name, ts))
         return VOpaque(name, args, f(*ts) if ts else z3.Const("ufc_" + re.sub(r"[^A-Za-z0-9_]", "_", name)[-60:], self.U))
@@ -565,6 +745,11 @@ class Engine:
             return v.t
         if isinstance(v, VRef):
             return self.as_u(self.read_ref(v))
+        if isinstance(v, VLazy):
+            ident = self.__dict__.get("lazy_ident", {}).get(v.path)
+            if ident is not None and v.version == 0:
+                return ident
+            return z3.Const("lazy_%s@%d" % (v.path, v.version), self.U)
         if isinstance(v, (VInt, VBig)):
             return z3.Function("int2u", z3.IntSort(), self.U)(v.t)
         if isinstance(v, VBool):
@@ -697,7 +882,7 @@ class Engine:
             raise Unsupported("deref of %r" % (v,))
         if k == "field":
             c, path = self.place_ref(fr, p[1], create)
-            return c, path + (("field", p[2]),)
+            return c, path + (("field", p[2], p[3]),)
         if k == "downcast":
             c, path = self.place_ref(fr, p[1], create)
             return c, path + (("downcast", p[2]),)
@@ -718,7 +903,19 @@ class Engine:
             if step[0] == "field":
                 if isinstance(v, VRef) :
                     v = self.read_ref(v)
+                if isinstance(v, VLazy):
+                    i = step[1]
+                    if i not in v.fields:
+                        if len(step) < 3 or step[2] is None:
+                            raise Unsupported("untyped field %d of lazy %r" % (i, v))
+                        v.fields[i] = self.materialize(step[2], "%s.%d" % (v.path, i))
+                    v = v.fields[i]
+                    continue
                 if isinstance(v, (VStruct, VEnum)):
+                    if (step[1] >= len(v.fields) or v.fields[step[1]] is None) and v.origin is not None and len(step) >= 3 and step[2]:
+                        while len(v.fields) <= step[1]:
+                            v.fields.append(None)
+                        v.fields[step[1]] = self.materialize(step[2], "%s.%d" % (v.origin, step[1]))
                     if step[1] >= len(v.fields):
                         raise Unsupported("field %d of %r (%s)" % (step[1], v, what))
                     v = v.fields[step[1]]
@@ -769,6 +966,18 @@ class Engine:
                     return
                 v = v.items[idx]
                 continue
+            if isinstance(v, VLazy):
+                v.version += 1
+                self.writes = getattr(self, "writes", 0) + 1
+                if lastp:
+                    v.fields[idx] = val
+                    return
+                if idx not in v.fields:
+                    if len(step) < 3 or not step[2]:
+                        raise Unsupported("write through untyped lazy field")
+                    v.fields[idx] = self.materialize(step[2], "%s.%d" % (v.path, idx))
+                v = v.fields[idx]
+                continue
             if not isinstance(v, (VStruct, VEnum)):
                 raise Unsupported("write into %r" % (v,))
             while len(v.fields) <= idx:
@@ -797,6 +1006,10 @@ class Engine:
         if k in ("str", "char", "float"):
             return VOpaque("const:" + str(c[1])[:40], [], z3.Const("str_" + re.sub(r"[^A-Za-z0-9_]", "_", str(c[1]))[:40], self.U))
         raw = c[1]
+        if raw.startswith("ZeroSized: "):
+            raw = raw[len("ZeroSized: "):].strip()
+            if raw.startswith("{closure@"):
+                return VStruct(raw[:match_close(raw, 0) + 1], [])
         if "::promoted[" in raw:
             fn = self.P.resolve_promoted(raw)
             if fn is None:
@@ -892,6 +1105,10 @@ class Engine:
             raise Unsupported("cast kind " + kind)
         if k == "discriminant":
             v = self.read_place(fr, rv[1])
+            if isinstance(v, VLazy):
+                c, path = self.place_ref(fr, rv[1])
+                v = self.force_enum(v)
+                self.replace_at(c, path, v)
             if isinstance(v, VEnum):
                 if v.ty in ENUM_DISCR:
                     return VInt(ENUM_DISCR[v.ty][v.variant], "i8")
